@@ -99,16 +99,22 @@ impl Parser for Constant {
 
 impl Parser for IntConstant {
     fn parse(input: &str) -> IResult<&str, IntConstant> {
+        fn unsigned(input: &str) -> IResult<&str, IntConstant> {
+            alt((
+                preceded(
+                    tag("0x"),
+                    map_res(hex_digit1, |d| i64::from_str_radix(d, 16).map(IntConstant)),
+                ),
+                map_res(digit1, |d| {
+                    let d = FromStr::from_str(d)?;
+                    Ok::<_, ParseIntError>(IntConstant(d))
+                }),
+            ))(input)
+        }
+        // at most one sign: recursing once per `-` overflows the stack on a long run of them
         alt((
-            preceded(tag("-"), map(IntConstant::parse, |d| IntConstant(-d.0))),
-            preceded(
-                tag("0x"),
-                map_res(hex_digit1, |d| i64::from_str_radix(d, 16).map(IntConstant)),
-            ),
-            map_res(digit1, |d| {
-                let d = FromStr::from_str(d)?;
-                Ok::<_, ParseIntError>(IntConstant(d))
-            }),
+            preceded(tag("-"), map(unsigned, |d| IntConstant(-d.0))),
+            unsigned,
         ))(input)
     }
 }
